@@ -294,6 +294,20 @@ func execute(r *core.Run, c *Case) {
 			return
 		}
 	}
+	// an integer label is not the text label that spells the same digits
+	for _, e := range c.Extras {
+		if !strings.HasPrefix(e.Label, "#") || c.MT != sims.COSE {
+			continue
+		}
+		txt := strings.TrimPrefix(e.Label, "#")
+		if present[txt] {
+			continue
+		}
+		if a, err := content.SignerInfo.ExtendedAttribute(txt); err == nil {
+			fail("lookup-conflates-integer-and-text-label", fmt.Sprintf("ExtendedAttribute(%q) returned the attribute with integer label %v", txt, a.Key))
+			return
+		}
+	}
 	for _, absent := range []string{"io.example.absent", "alg", "io.cncf.notary.signingScheme", "crit"} {
 		if present[absent] {
 			continue
@@ -406,6 +420,12 @@ func run(r *core.Run) int {
 					}
 					cases = append(cases, &Case{MT: mt, Scheme: scheme, Extras: ex, Expiry: i%2 == 0})
 				}
+			}
+			// a critical label listed twice in crit is still one attribute
+			for i := 0; i < r.Pick(30, 200); i++ {
+				ex := genExtras(rng, mt, 1+rng.IntN(3))
+				ex[0].Critical = true
+				cases = append(cases, &Case{MT: mt, Scheme: scheme, Extras: ex, CritAdd: []string{ex[0].Label}, Expiry: rng.IntN(2) == 0})
 			}
 			// crit lists naming absent / specification labels
 			spec := envcodec.JWSSpecHeaders
